@@ -194,8 +194,6 @@ def run(tier, seed):
     rep.case({'kind': kind, 'labels': y.flatten().tolist()}, len(np.unique(fin)) >= 2)
     rep.count('kind_' + kind)
     for (name, mk, strict, finreq, infr, fonly, unw) in WARPERS:
-      if name == 'LogWarperComponent' and (fin.size == 0 or fin.max() == fin.min()):
-        continue     # 0/0 for a constant array: the pipeline short cut / half-rank run before it; on its own it is undefined
       if name in ('HalfRankComponent', 'LogWarperComponent', 'DetectOutliers') and fin.size == 0:
         continue
       if kind == 'minute' and name == 'InfeasibleWarperComponent':
@@ -240,7 +238,11 @@ def run(tier, seed):
           obs.append((1, q))
       hr_cases.append('(%s, %s, %s, %s)' % (labs, glist(obs, lambda o: gpair(gnat(o[0]), gQ(o[1]))), gQ(std * std if math.isfinite(std) else -1.0), '(1 # 10000000)'))
       hr_objs.append({'labels': flat.tolist(), 'observed': out.tolist(), 'std': std})
-    pout = ow.create_default_warper().warp(y.copy()).flatten()
+    try:
+      pout = ow.create_default_warper().warp(y.copy()).flatten()
+    except Exception as e:  # pylint: disable=broad-except
+      viol('the default pipeline raised %s on a label array' % type(e).__name__, {'labels': flat.tolist(), 'error': str(e)[:300]})
+      continue
     code = 0 if (np.all(pout == 0) and np.isfinite(flat).all() and len(np.unique(flat)) == 1) else (1 if (np.all(pout == -1) and np.isnan(flat).all()) else 2)
     sc_cases.append('(%s, %s)' % (labs, gnat(code)))
     sc_objs.append({'labels': flat.tolist(), 'pipeline_output': pout.tolist()})
